@@ -239,7 +239,8 @@ func Run(ctx *core.Ctx) {
 		"a program whose Go rendering (soyhtml) differs from the intended string is NOT judged (the shared front end, not the JS generator, lost the literal: C01/C15's subject); such programs are counted in frontend_disagree",
 		"bundles the Go compiler rejects are not judged (C07's subject); counted per position",
 		"valid UTF-8 only; NUL only where Soy can spell it (\\u0000); surrogate escapes (\\uD83D) are not used (Go and Java disagree on what they denote)",
-		"identifiers (namespace, template, variable, param names) are plain identifiers that are not JavaScript reserved words",
+		"the identifier-hazard programs choose reserved words, runtime names and Object.prototype member names for variables, params, templates and namespace segments; elsewhere identifiers are plain",
+		"a {call} param or @param named __proto__ is not used to observe a literal: the param travels in a plain JS object and is lost on the way, but the script is well-formed, the templates are defined and the literal denotes its characters -- the loss is a Go/JS divergence of param passing (C04's ground, outside the common subset), not a claim of C14",
 		"ES6 output is parsed and evaluated as an ES module (vm.SourceTextModule); imports 'a.b.js' are linked to the other modules / soy.$$ utilities by name (js/driver.js)",
 	)
 	ctx.Trusted = append(ctx.Trusted, "node v20 (V8 parser and evaluator)", "js/driver.js + harness/jsrun", "Go harness (program generator)", "TLC")
